@@ -832,6 +832,7 @@ Proof.
   - destruct (b_nout (b_orc (assemble r hd fee)) =? 0) eqn:E; [reflexivity|].
     cbn [orb]. apply Ho. rewrite O in E. unfold req_shape, shape_of in E. cbn [sh_orc] in E.
     unfold orchard_in_use. destruct (e_orc (env_of r)); [|cbn in E; discriminate]. cbn [andb].
+    rewrite NCB. cbn [negb andb].
     destruct (p_req (r_opad r)) eqn:Pr; [now rewrite !orb_true_r|].
     destruct (nonempty (os_vals (r_ops r))) eqn:N1; [reflexivity|].
     destruct (nonempty (oo_vals (r_ops r))) eqn:N2; [reflexivity|].
@@ -853,13 +854,16 @@ Lemma in_use_needs r ops : Forall (fun o => avail r o = true) ops ->
   orchard_in_use r ops = needs_orchard r ops /\ ironwood_in_use r ops = needs_ironwood r ops.
 Proof.
   intros F. unfold orchard_in_use, needs_orchard, ironwood_in_use, needs_ironwood.
+  pose proof (env_orc r) as Eo. pose proof (env_iw r) as Ei.
   split.
   - destruct (e_orc (env_of r)) eqn:E.
-    + rewrite <- env_orc, E. cbn [andb]. reflexivity.
-    + destruct (avail_no_orchard r _ F E) as (-> & -> & ->). rewrite <- env_orc, E. reflexivity.
+    + cbn [andb]. destruct (r_coinbase r); cbn [negb andb]; [reflexivity|]. now rewrite <- Eo.
+    + destruct (avail_no_orchard r _ F E) as (-> & -> & ->). cbn [nonempty orb andb].
+      destruct (r_coinbase r); cbn [negb andb]; [reflexivity|]. now rewrite <- Eo.
   - destruct (e_iw (env_of r)) eqn:E.
-    + rewrite <- env_iw, E. cbn [andb]. reflexivity.
-    + destruct (avail_no_ironwood r _ F E) as (-> & ->). rewrite <- env_iw, E. reflexivity.
+    + cbn [andb]. destruct (r_coinbase r); cbn [negb andb]; [reflexivity|]. now rewrite <- Ei.
+    + destruct (avail_no_ironwood r _ F E) as (-> & ->). cbn [nonempty orb andb].
+      destruct (r_coinbase r); cbn [negb andb]; [reflexivity|]. now rewrite <- Ei.
 Qed.
 
 Lemma check_version_refusable r ops v : Forall (fun o => avail r o = true) ops ->
@@ -874,10 +878,20 @@ Proof.
   (destruct (needs_ironwood r ops); [rewrite Hi by reflexivity|]; cbn [negb andb orb]); reflexivity.
 Qed.
 
+Lemma built_version r b : build r = Ok b -> version_okb r b = true.
+Proof.
+  intros H. destruct (r_coinbase r) eqn:CB; [|now apply built_version_std].
+  apply build_cb_ok_inv in H; [|exact CB]. destruct H as (hd & R & C & _ & TI & _ & ->).
+  destruct (run_ops_hdr _ _ R) as (_ & _ & F). now apply cb_version.
+Qed.
+
 Lemma built_version_gate r b : build r = Ok b -> version_refusable r (r_ops r) (b_ver b) = false.
 Proof.
-  intros H. apply build_ok_inv in H. destruct H as (hd & fee & R & _ & C & _ & -> & _).
-  destruct (run_ops_hdr _ _ R) as (_ & _ & F). now apply check_version_refusable.
+  intros H. destruct (r_coinbase r) eqn:CB.
+  - apply build_cb_ok_inv in H; [|exact CB]. destruct H as (hd & R & C & _ & _ & _ & ->).
+    destruct (run_ops_hdr _ _ R) as (_ & _ & F). now apply check_version_refusable.
+  - apply build_ok_inv in H; [|exact CB]. destruct H as (hd & fee & R & _ & C & _ & -> & _).
+    destruct (run_ops_hdr _ _ R) as (_ & _ & F). now apply check_version_refusable.
 Qed.
 
 Lemma value_balance_err r e : value_balance r = Err e -> e = EBalance true.
@@ -921,10 +935,10 @@ Proof.
   right. right. right.
   split; [|lia].
   destruct (r_route r).
-  - destruct (negb (has_overwinter (fst hd))); [discriminate|].
-    destruct (forallb _ _); [discriminate|]. inversion H. auto.
-  - destruct (negb (has_overwinter (fst hd))); [discriminate|].
-    destruct (forallb _ _); [discriminate|]. inversion H. auto.
+  - destruct (sign_check _ _ _) as [u|e'|] eqn:SC; try discriminate.
+    inversion H. subst e'. apply sign_check_err in SC. auto.
+  - destruct (sign_check _ _ _) as [u|e'|] eqn:SC; try discriminate.
+    inversion H. subst e'. apply sign_check_err in SC. auto.
   - destruct (e_sap (env_of r) && negb (zip212_on (r_net r) (r_height r))); [|discriminate].
     inversion H. auto.
   - destruct (e_sap (env_of r) && negb (zip212_on (r_net r) (r_height r))); [|discriminate].
